@@ -188,7 +188,8 @@ def run_pool(worker, tasks, log_path):
             log.write(json.dumps({k: r.get(k) for k in ("name", "status", "secs", "paths",
                                                          "queries", "discharged", "reason")}) + "\n")
             log.flush()
-    results.sort(key=lambda r: (r["name"], r.get("dump", "")))
+    # grouped by compiled file, so that the driver needs one replay process at a time
+    results.sort(key=lambda r: (r.get("dump", ""), r["name"]))
     return results
 
 
@@ -201,13 +202,23 @@ def wit(r):
 
 
 class Replayers:
+    """Replay processes by (source, configuration). Each one holds a compiled program (tens of MB);
+    a thorough C17 run with four configurations of ~450 files exhausted 62 GB when they were all
+    kept, so only the most recently used few stay alive."""
+    MAX_LIVE = 16
+
     def __init__(self):
         self.r = {}
 
     def get(self, src, cfg):
         k = (src, json.dumps(cfg, sort_keys=True))
-        if k not in self.r:
-            self.r[k] = common.Replayer(src, cfg)
+        if k in self.r:
+            self.r[k] = self.r.pop(k)  # most recently used last
+            return self.r[k]
+        while len(self.r) >= self.MAX_LIVE:
+            old = next(iter(self.r))
+            self.r.pop(old).close()
+        self.r[k] = common.Replayer(src, cfg)
         return self.r[k]
 
     def close(self):
